@@ -71,6 +71,8 @@ func (s SCTP) SerializeTo(b gopacket.SerializeBuffer, opts gopacket.SerializeOpt
 		// passes back a singleton on every other call, so this shouldn't cause
 		// excessive memory allocation.
 		binary.LittleEndian.PutUint32(bytes[8:12], crc32.Checksum(b.Bytes(), crc32.MakeTable(crc32.Castagnoli)))
+	} else {
+		binary.BigEndian.PutUint32(bytes[8:12], s.Checksum)
 	}
 	return nil
 }
@@ -232,7 +234,7 @@ func decodeSCTPChunkTypeUnknown(data []byte, p gopacket.PacketBuilder) error {
 
 // SerializeTo is for gopacket.SerializableLayer.
 func (s SCTPUnknownChunkType) SerializeTo(b gopacket.SerializeBuffer, opts gopacket.SerializeOptions) error {
-	bytes, err := b.PrependBytes(s.ActualLength)
+	bytes, err := b.PrependBytes(len(s.bytes))
 	if err != nil {
 		return err
 	}
@@ -394,6 +396,9 @@ func (sc SCTPData) SerializeTo(b gopacket.SerializeBuffer, opts gopacket.Seriali
 	binary.BigEndian.PutUint16(bytes[10:12], sc.StreamSequence)
 	binary.BigEndian.PutUint32(bytes[12:16], uint32(sc.PayloadProtocol))
 	copy(bytes[16:], payload)
+	for i := 16 + len(payload); i < len(bytes); i++ {
+		bytes[i] = 0 // chunk padding
+	}
 	return nil
 }
 
@@ -542,6 +547,9 @@ func (sc SCTPSack) SerializeTo(b gopacket.SerializeBuffer, opts gopacket.Seriali
 	offset := 16 + 2*len(sc.GapACKs)
 	for i, v := range sc.DuplicateTSNs {
 		binary.BigEndian.PutUint32(bytes[offset+i*4:], v)
+	}
+	for i := length; i < len(bytes); i++ {
+		bytes[i] = 0 // chunk padding
 	}
 	return nil
 }
@@ -758,6 +766,9 @@ func (sc SCTPCookieEcho) SerializeTo(b gopacket.SerializeBuffer, opts gopacket.S
 	bytes[1] = sc.Flags
 	binary.BigEndian.PutUint16(bytes[2:4], uint16(length))
 	copy(bytes[4:], sc.Cookie)
+	for i := length; i < len(bytes); i++ {
+		bytes[i] = 0 // chunk padding
+	}
 	return nil
 }
 
